@@ -69,7 +69,9 @@ def gen_case(rng, tier):
     op = rng.choice(OPS_BY_DT[dt])
     container = rng.choice(["numpy", "pandas", "pandas"])
     index = [rng.randint(0, 6) for _ in range(n)] if container == "pandas" else None
-    return dict(keycols=keycols, kinds=kinds, dt=dt, vals=vals, mask=mask, op=op, container=container, index=index)
+    # the execution strategy must not matter (C03): a third of the cases run chunk-factorized and / or multi-threaded
+    strat = rng.choice([None, None, None, None, "chunked", "threads", "both"])
+    return dict(keycols=keycols, kinds=kinds, dt=dt, vals=vals, mask=mask, op=op, container=container, index=index, strategy=strat)
 
 
 def run_case(GroupBy, c, expected, observed, labels):
@@ -85,14 +87,17 @@ def run_case(GroupBy, c, expected, observed, labels):
     mask = api.api_mask(c["mask"], index=idx, as_series=(c["container"] == "pandas"))
     op = c["op"]
     sig = dict(level="api", op=op, dtype=c["dt"], nkeys=len(keys), mask=("none" if c["mask"] is None else c["mask"][0]))
-    r = api.call(lambda: GroupBy(keys if len(keys) > 1 else keys[0]))
-    if r[0] != "ok":
-        return [dict(sig={**sig, "what": "constructor-raised", "exc": r[1]}, what="GroupBy(keys) raised: " + r[2], observed=r[2], expected="a grouping")]
-    gb = r[1]
-    if op == "size":
-        r = api.call(lambda: gb.size(mask=mask))
-    else:
-        r = api.call(lambda: getattr(gb, op)(values, mask=mask))
+    st = c.get("strategy")
+    sig["strategy"] = st or "plain"
+    with api.strategy(chunk_threshold=4 if st in ("chunked", "both") else None, rows_per_thread=2 if st in ("threads", "both") else None):
+        r = api.call(lambda: GroupBy(keys if len(keys) > 1 else keys[0]))
+        if r[0] != "ok":
+            return [dict(sig={**sig, "what": "constructor-raised", "exc": r[1]}, what="GroupBy(keys) raised: " + r[2], observed=r[2], expected="a grouping")]
+        gb = r[1]
+        if op == "size":
+            r = api.call(lambda: gb.size(mask=mask))
+        else:
+            r = api.call(lambda: getattr(gb, op)(values, mask=mask))
     want = {labels[g]: expected[g] for g in range(len(labels)) if observed[g]}
     if r[0] != "ok":
         return [dict(sig={**sig, "what": "raised", "exc": r[1]}, what=f"GroupBy.{op} raised: {r[2]}", observed=r[2], expected=str(want))]
